@@ -33,6 +33,8 @@ def cases(seed, tier):
     out = [{"fam": "inbounds", "seed": [seed, 12, i], "count": 2} for i in range(50 if q else 700)]
     out += [{"fam": "outbounds", "seed": [seed, 12, 10 ** 5 + i], "count": 2} for i in range(12 if q else 150)]
     out += [{"fam": "vanish", "seed": [seed, 12, 2 * 10 ** 5 + i], "count": 2} for i in range(12 if q else 150)]
+    if tier != "quick":
+        out.append({"fam": "suite", "seed": [seed, 0, 0]})
     return out
 
 
@@ -221,7 +223,31 @@ def _one(rng, fam, mon, sigs, hist):
     sigs.append([len(at0.cells), nfr, cm, gmode, fam, bool(inb_all), tracked > 0])
 
 
+
+def _suite_case(prop_id):
+    """the repository's own test-suite as an extra workload, run under this property's monitors (shipped fixtures)"""
+    from fv import suite
+    data, tail = suite.run(prop_id)
+    if data is None or data.get("exitstatus") not in (0, 1):
+        return {"status": "inconclusive", "reason": "suite-did-not-run", "trace": tail}
+    counters = {"suite:" + k: v for k, v in data["evals"].items()}
+    counters["suite:runs"] = 1
+    fails = list(data["fails"])
+    if data.get("unraisable"):
+        fails.append({"mech": "unraisable", "clause": "no destructor raises", "detail": {"events": data["unraisable"]}})
+    if data.get("monitor_errors"):
+        return {"status": "inconclusive", "reason": "monitor-error", "trace": data["monitor_errors"][-1], "counters": counters}
+    if fails:
+        return {"status": "violated", "findings": fails, "counters": counters, "sigs": [["suite"]]}
+    if not data["evals"]:
+        return {"status": "inconclusive", "reason": "suite-reached-no-monitor", "counters": counters}
+    return {"status": "held", "sigs": [["suite", sum(data["evals"].values())]], "sig": ["suite"], "counters": counters,
+            "observed": {"monitor_evaluations_in_suite": data["evals"]}}
+
+
 def run_case(case):
+    if case.get("fam") == "suite":
+        return _suite_case(ID)
     mon = _install()
     mon.reset()
     rng = np.random.default_rng(case["seed"])
